@@ -1,6 +1,7 @@
 package rules
 
 import (
+	"fmt"
 	"go/token"
 	"go/types"
 
@@ -231,3 +232,250 @@ func (l *splitLoop) funcs() []*ssa.Function {
 
 // minMaxCall: see eng.MinMaxCall.
 func minMaxCall(v ssa.Value) (kind int, args []ssa.Value, ok bool) { return eng.MinMaxCall(v) }
+
+// ---------------------------------------------------------------------------
+// A small interprocedural term evaluator: integer expressions are reduced to
+// polynomials over symbols, across calls of module functions (parameters are
+// bound to the caller's arguments), through min/max helpers and non-loop phis
+// (both give a set of alternatives), and through fields of a local object:
+// a field stored once before any loop is replaced by the stored value, a field
+// that is advanced in a loop or by a method becomes the symbol "state.<name>".
+
+type symEnv struct {
+	fn     *ssa.Function
+	call   *ssa.Call
+	parent *symEnv
+}
+
+type symStore struct {
+	st  *ssa.Store
+	env *symEnv
+}
+
+type symCtx struct {
+	leaf   func(v ssa.Value) (*eng.Poly, bool)
+	states map[string][]symStore // state symbol -> the stores that advance it
+}
+
+func (e *symEnv) bound(p *ssa.Parameter) (ssa.Value, *symEnv, bool) {
+	if e == nil || e.call == nil {
+		return nil, nil, false
+	}
+	for i, q := range e.fn.Params {
+		if q == p && i < len(e.call.Call.Args) {
+			return e.call.Call.Args[i], e.parent, true
+		}
+	}
+	return nil, nil, false
+}
+
+// fieldStores lists the stores to field f of the object base (an Alloc of e.fn):
+// in e.fn itself and in the functions e.fn calls with the object as first argument.
+func fieldStores(base ssa.Value, f int, e *symEnv) []symStore {
+	var out []symStore
+	eng.Instrs(e.fn, false, func(in ssa.Instruction) {
+		switch x := in.(type) {
+		case *ssa.Store:
+			if fa, ok := x.Addr.(*ssa.FieldAddr); ok && fa.X == base && fa.Field == f {
+				out = append(out, symStore{x, e})
+			}
+		case *ssa.Call:
+			g := x.Call.StaticCallee()
+			if g == nil || len(g.Blocks) == 0 || len(g.Params) == 0 || len(x.Call.Args) == 0 || x.Call.Args[0] != base {
+				return
+			}
+			ge := &symEnv{g, x, e}
+			eng.Instrs(g, false, func(in2 ssa.Instruction) {
+				if st, ok := in2.(*ssa.Store); ok {
+					if fa, ok := st.Addr.(*ssa.FieldAddr); ok && fa.X == ssa.Value(g.Params[0]) && fa.Field == f {
+						out = append(out, symStore{st, ge})
+					}
+				}
+			})
+		}
+	})
+	return out
+}
+
+// resolve follows parameter bindings and init-only fields to the value they stand for.
+func (c *symCtx) resolve(v ssa.Value, e *symEnv) (ssa.Value, *symEnv) {
+	for i := 0; i < 16; i++ {
+		switch x := v.(type) {
+		case *ssa.Parameter:
+			if a, pe, ok := e.bound(x); ok {
+				v, e = a, pe
+				continue
+			}
+		case *ssa.UnOp:
+			if x.Op != token.MUL {
+				return v, e
+			}
+			fa, ok := x.X.(*ssa.FieldAddr)
+			if !ok {
+				return v, e
+			}
+			base, be := c.resolve(fa.X, e)
+			if _, isAl := base.(*ssa.Alloc); !isAl || be == nil {
+				return v, e
+			}
+			sts := fieldStores(base, fa.Field, be)
+			if len(sts) == 1 && sts[0].env == be && !eng.InLoop(sts[0].st.Block()) {
+				v, e = sts[0].st.Val, be
+				continue
+			}
+		}
+		return v, e
+	}
+	return v, e
+}
+
+// alts evaluates v in environment e to the set of polynomials it may equal
+// (several for min/max and clamping phis). nil when it cannot be evaluated.
+func (c *symCtx) alts(v ssa.Value, e *symEnv, depth int) []*eng.Poly {
+	if depth > 8 {
+		return nil
+	}
+	v, e = c.resolve(v, e)
+	union := func(vs []ssa.Value, ve *symEnv) []*eng.Poly {
+		var out []*eng.Poly
+		for _, w := range vs {
+			a := c.alts(w, ve, depth+1)
+			if a == nil {
+				return nil
+			}
+		next:
+			for _, p := range a {
+				for _, q := range out {
+					if q.Equal(p) {
+						continue next
+					}
+				}
+				out = append(out, p)
+			}
+		}
+		return out
+	}
+	results := func(call *ssa.Call, idx int) []*eng.Poly {
+		g := call.Call.StaticCallee()
+		if g == nil || len(g.Blocks) == 0 || !eng.InModule(g) {
+			return nil
+		}
+		ge := &symEnv{g, call, e}
+		var vs []ssa.Value
+		for _, r := range eng.Returns(g) {
+			rv := eng.ReturnValues(r)
+			if idx >= len(rv) {
+				return nil
+			}
+			vs = append(vs, rv[idx])
+		}
+		if len(vs) == 0 {
+			return nil
+		}
+		return union(vs, ge)
+	}
+	switch x := v.(type) {
+	case *ssa.Phi:
+		if !isLoopCarried(x) {
+			return union(x.Edges, e)
+		}
+	case *ssa.Call:
+		if _, args, ok := minMaxCall(x); ok {
+			return union(args, e)
+		}
+		if _, isB := x.Call.Value.(*ssa.Builtin); !isB {
+			if c.leaf != nil {
+				if p, ok := c.leaf(x); ok {
+					return []*eng.Poly{p}
+				}
+			}
+			return results(x, 0)
+		}
+	case *ssa.Extract:
+		if call, ok := x.Tuple.(*ssa.Call); ok {
+			return results(call, x.Index)
+		}
+	}
+	p, ok := eng.IntPoly(v, func(w ssa.Value) (*eng.Poly, bool) {
+		if c.leaf != nil {
+			if p, ok := c.leaf(w); ok {
+				return p, true
+			}
+		}
+		rw, re := c.resolve(w, e)
+		if rw != w || re != e {
+			if a := c.alts(rw, re, depth+1); len(a) == 1 {
+				return a[0], true
+			}
+			return nil, false
+		}
+		switch y := w.(type) {
+		case *ssa.Parameter:
+			return eng.PSym(y.Name()), true
+		case *ssa.UnOp:
+			if y.Op == token.MUL {
+				if fa, ok := y.X.(*ssa.FieldAddr); ok {
+					base, be := c.resolve(fa.X, e)
+					if al, isAl := base.(*ssa.Alloc); isAl && be != nil {
+						sts := fieldStores(base, fa.Field, be)
+						if len(sts) == 0 {
+							return eng.PConst(0), true
+						}
+						name := "state." + fieldNameOf(al, fa.Field)
+						if c.states == nil {
+							c.states = map[string][]symStore{}
+						}
+						c.states[name] = sts
+						return eng.PSym(name), true
+					}
+				}
+			}
+		case *ssa.Call:
+			if b, ok := y.Call.Value.(*ssa.Builtin); ok && b.Name() == "len" && len(y.Call.Args) == 1 {
+				lv, _ := c.resolve(y.Call.Args[0], e)
+				if p, ok := lv.(*ssa.Parameter); ok {
+					return eng.PSym("len(" + p.Name() + ")"), true
+				}
+				return nil, false
+			}
+			if a := c.alts(y, e, depth+1); len(a) == 1 {
+				return a[0], true
+			}
+		case *ssa.Phi, *ssa.Extract:
+			if a := c.alts(y, e, depth+1); len(a) == 1 && w != v {
+				return a[0], true
+			}
+		}
+		return nil, false
+	})
+	if !ok {
+		return nil
+	}
+	return []*eng.Poly{p}
+}
+
+func fieldNameOf(al *ssa.Alloc, f int) string {
+	t := al.Type().Underlying().(*types.Pointer).Elem().Underlying()
+	if st, ok := t.(*types.Struct); ok && f < st.NumFields() {
+		return st.Field(f).Name()
+	}
+	return fmt.Sprintf("f%d", f)
+}
+
+func polySetEqual(a, b []*eng.Poly) bool {
+	if len(a) != len(b) || len(a) == 0 {
+		return false
+	}
+	for _, p := range a {
+		found := false
+		for _, q := range b {
+			if p.Equal(q) {
+				found = true
+			}
+		}
+		if !found {
+			return false
+		}
+	}
+	return true
+}
